@@ -120,6 +120,12 @@ var vfsOps = map[string]vfsOp{
 		}
 	},
 	"SetUserByName": func(v avfs.VFS, g *gctx) { _ = v.SetUserByName(fmt.Sprintf("u%d", g.id%4)) },
+	"SetUser":       func(v avfs.VFS, g *gctx) { _ = v.SetUser(g.w.users[g.rng.Intn(len(g.w.users))]) },
+	"User":          func(v avfs.VFS, g *gctx) { _ = v.User().Name() },
+	"SetIdm":        func(v avfs.VFS, g *gctx) { _ = v.SetIdm(g.w.idm) },
+	"Idm":           func(v avfs.VFS, g *gctx) { _ = v.Idm() },
+	"SetUMask":      func(v avfs.VFS, g *gctx) { _ = v.SetUMask(fs.FileMode(g.rng.Intn(0o100))) },
+	"UMask":         func(v avfs.VFS, g *gctx) { _ = v.UMask() },
 	"TempDir":       func(v avfs.VFS, g *gctx) { _ = v.TempDir() },
 	"SameFile": func(v avfs.VFS, g *gctx) {
 		a, e1 := v.Stat(g.file())
